@@ -28,6 +28,10 @@ class ModInfo:
             for t in st.targets:
                 if isinstance(t, ast.Name):
                     self.top[t.id] = st
+                elif isinstance(t, ast.Tuple):
+                    for e in t.elts:
+                        if isinstance(e, ast.Name):
+                            self.top[e.id] = st
         elif isinstance(st, ast.AnnAssign) and isinstance(st.target, ast.Name) and st.value is not None:
             self.top[st.target.id] = st
         elif isinstance(st, ast.Import):
